@@ -8,19 +8,19 @@ ALL = ["C%02d" % i for i in range(1, 21)]
 
 CHECKS = {
  "C19": dict(level="exploration",
-   text="Configuration exploration through the real fitgen command built from the tree: every bundled workbook in both input forms twice, the repeat regenerating in place over a larger earlier output, the -sdk flag overriding / supplying the version of zip inputs, relative output directories from another working directory (deviation 0) and every single-row toggle of the product-profile column that an independent dependency analysis allows (deviation 1; quick tier: component/subfield-bearing messages of the newest workbook). Each output is checked for determinism, declared SDK version, agreement with an independent stdlib reading of the workbook (go/ast audit) and for compiling together with the support code (go/types, errors classified).",
+   text="Configuration exploration through the real fitgen command built from the tree: every bundled workbook in both input forms twice, the repeat regenerating in place over a larger earlier output, the -sdk flag overriding / supplying the version of zip inputs, relative output directories from another working directory (deviation 0); class toggles (every unprotected row of one type disabled at once) and every single-row toggle of the product-profile column that an independent dependency analysis allows (deviation 1; quick tier: component/subfield-bearing messages of the newest workbook). Each output is checked for determinism, declared SDK version, agreement with an independent stdlib reading of the workbook (go/ast audit) and for compiling together with the support code (go/types, errors classified).",
    note="Dependency-closed subsets beyond deviation 1 are not enumerated (2^1000). Compile check is go/types with the source importer, not the gc back end. Stock output vs today's support code skew is a listed finding per workbook.",
    technique="deviation-bounded exhaustive configuration enumeration through the real command with an independent workbook reader as oracle", ref="3 C19"),
  "C20": dict(level="exploration",
-   text="Exhaustive enumeration of every constant of every integer type in types.go and of all remaining values of 8- and 16-bit types (boundary families for wider types in the quick tier, all 2^32 values of every 32-bit type in the thorough tier) through a generated program that calls String(); plus byte-for-byte regeneration of types_string.go with the repository's own stringer.",
+   text="Exhaustive enumeration of every constant of every integer type in types.go and of all remaining values of 8- and 16-bit types (boundary families for wider types in the quick tier, all 2^32 values of every 32-bit type in the thorough tier) through a generated program that calls String() (constants collected from every file of the package); plus byte-for-byte regeneration of types_string.go with the repository's own stringer.",
    note="Type and constant inventory comes from go/types on types.go; the regeneration driver is added by build overlay (nothing written to /repo).",
    technique="exhaustive input enumeration + regeneration (translation) comparison", ref="3 C20"),
  "C08": dict(level="model_checking",
-   text="Explicit exploration of call histories: every sequence up to the bound over a 32-call pool chosen to collide on package-level state (incl. near-twin inputs that differ only in a detail a lossy cache key would conflate), each history executed in its own fresh process; every position must return what the same call returns when made first in a fresh process, and solo calls are repeated across processes (Encode determinism). Behavioural states (vectors of one-step futures) are counted: a pure implementation has exactly one.",
+   text="Explicit exploration of call histories: every sequence up to the bound over a 34-call pool chosen to collide on package-level state (incl. near-twin inputs that differ only in a detail a lossy cache key would conflate), each history executed in its own fresh process; every position must return what the same call returns when made first in a fresh process, and solo calls are repeated across processes (Encode determinism). Behavioural states (vectors of one-step futures) are counted: a pure implementation has exactly one.",
    note="Fresh-process baseline means no in-process reset has to be trusted. The package-level distance accumulator (listed finding) is shadowed and attributed exactly. Map-iteration nondeterminism is observed through repeated fresh-process runs, not enumerated.",
    technique="explicit-state exploration of call histories with a fresh-process differential oracle", ref="3 C08"),
  "C09": dict(level="model_checking",
-   text="Stateless schedule exploration on the real code under a cooperative scheduler with iterative preemption bounding. Scheduling points: (1) every Read/Write on harness-owned readers/writers (reads cut at record boundaries; the decoding calls again at byte granularity) for all unordered pairs of the 32 pool calls plus 3-thread and 2-calls-per-thread scenarios; (2) every access to a mutable package-level variable, through a build overlay generated from the current tree by tools in harness/cmd/vinstr (nothing written to /repo), each scenario in a fresh process, with an access-conflict oracle (variable written and touched by both goroutines, no locks in the package). Each thread must return its solo result under every schedule. A separate free-running pass of the same bodies under the Go race detector classifies every report by function signature.",
+   text="Stateless schedule exploration on the real code under a cooperative scheduler with iterative preemption bounding. Scheduling points: (1) every Read/Write on harness-owned readers/writers (reads cut at record boundaries; the decoding calls again at byte granularity) for all unordered pairs of the 34 pool calls plus 3-thread and 2-calls-per-thread scenarios; (2) every access to a mutable package-level variable, through a build overlay generated from the current tree by tools in harness/cmd/vinstr (nothing written to /repo), each scenario in a fresh process, with an access-conflict oracle (variable written and touched by both goroutines, no locks in the package). Each thread must return its solo result under every schedule. A separate free-running pass of the same bodies under the Go race detector classifies every report by function signature.",
    note="Interleavings are sequentially consistent at the granularity of the scheduling points; weak-memory effects are only sampled by the race-detector pass. Preemption bound completed: 2 (quick) / 4 (thorough) for pairs. The access-level pass leaves out the calls that hit the listed accumulator finding; if the package starts using locks/atomics the access-conflict oracle stands down (never a false alarm) and the race pass remains.",
    technique="stateless model checking with a controlled scheduler (environment-call and instrumented-access scheduling points), preemption bounding + separate race-detector pass", ref="3 C09"),
  "C05": dict(level="exploration",
@@ -28,11 +28,11 @@ CHECKS = {
    note="Reference encoder and parser live in harness/fitmodel and harness/props/filegen.go. In-domain Files start from the all-invalid file_id (NewFile leaves Go zero values, which are outside the representable domain).",
    technique="bounded exhaustive input enumeration with an independent grammar parser as oracle", ref="3 C05"),
  "C06": dict(level="exploration",
-   text="The same in-domain File family (plus all ordered field pairs per message in the thorough tier and local timestamps 18 zone offsets away from a UTC reference in the same or an earlier message, incl. offsets that are not whole minutes; several local timestamps in one real daylight-saving zone across its transitions; every ordered triple of string values per string field; strings with U+FFFD; arrays with an invalid element inside) is encoded and decoded back; per-member counts, order and every field are compared under exactly the four relaxations the property states.",
+   text="The same in-domain File family (plus all ordered field pairs per message in the thorough tier and local timestamps 18 zone offsets away from a UTC reference in the same or an earlier message, incl. offsets that are not whole minutes; several local timestamps in one real daylight-saving zone across its transitions; every ordered triple of string values per string field; strings with U+FFFD; arrays with an invalid element inside; stale output fields on every fourth File) is encoded and decoded back; per-member counts, order and every field are compared under exactly the four relaxations the property states.",
    note="Component destinations are predicted by the C18 reference expansion; accumulated destinations are excluded when their source is set (C18 findings).",
    technique="bounded exhaustive input enumeration, round-trip oracle with stated relaxations", ref="3 C06"),
  "C07": dict(level="exploration",
-   text="A pool of tens of thousands of distinct accepted streams (model-generated families of C02/C12/C13/C18, out-of-profile-length strings and arrays, non-UTF-8 strings, string sequences longer-then-shorter, mix-family words, fully populated and sparse-after-rich messages, a stream for each of the 256 file-type bytes, corpus and crasher inputs) is driven through decode-encode-decode-encode-decode in both byte orders; Encode must succeed, the output must pass CheckIntegrity, generation 2 must equal generation 1 up to profile lengths and generation 3 must equal generation 2.",
+   text="A pool of tens of thousands of distinct accepted streams (model-generated families of C02/C12/C13/C18, out-of-profile-length strings and arrays, non-UTF-8 strings, string sequences longer-then-shorter, mix-family words, fully populated and sparse-after-rich messages, a stream for each of the 256 file-type bytes and each protocol-version byte, corpus and crasher inputs) is driven through decode-encode-decode-encode-decode in both byte orders; Encode must succeed, the output must pass CheckIntegrity, generation 2 must equal generation 1 up to profile lengths and generation 3 must equal generation 2.",
    note="Three listed findings (non-UTF-8 strings, one-pass expansion order, resized compressed_speed_distance) are attributed by exact defect models; accumulated destinations are excluded (C18 findings).",
    technique="bounded exhaustive input enumeration, multi-generation round-trip oracle", ref="3 C07"),
  "C03": dict(level="model_checking",
@@ -48,7 +48,7 @@ CHECKS = {
    note="Five local types x four definition variants in the words; all 16 local types at depth 2. Values are checked with the C02 model.",
    technique="explicit-state BFS over model slot states + exhaustive bounded words, each trace replayed on the decoder", ref="3 C13"),
  "C16": dict(level="model_checking",
-   text="All words up to the bound over 12 record groups x every truncation offset x all 8 option combinations; content, error and bytes consumed must equal the option-free run and the unknown-item lists must equal the model counters (bounded by completed / in-progress records on failure). Whole streams also with the options passed in every order and repeated (19 configurations). A generic form of the same oracle (counters derived from the independent parser, content from the reference decoder) runs over the mix words, the shared streams and every device file of the corpus under all option configurations; DecodeChained over ordered pairs of mix-family files: per-member counters; all 16 x 16 local-type pairs.",
+   text="All words up to the bound over 12 record groups x every truncation offset x all 8 option combinations; content, error and bytes consumed must equal the option-free run and the unknown-item lists must equal the model counters (bounded by completed / in-progress records on failure). Whole streams also with the options passed in every order and repeated (19 configurations). A generic form of the same oracle (counters derived from the independent parser, content from the reference decoder) runs over the mix words, the shared streams and every device file of the corpus under all option configurations; DecodeChained over ordered pairs of mix-family files: per-member counters; all 16 x 16 local-type pairs; failure right after the file_id record.",
    note="Logger is a counting sink that formats its arguments (to execute the debug branches).",
    technique="explicit enumeration of record sequences x crash points x configurations against reference counters", ref="3 C16"),
  "C18": dict(level="model_checking",
@@ -56,15 +56,15 @@ CHECKS = {
    note="Known findings K1-K3 are generated code pinned by TestGenerator goldens; their defect models shadow the package-level accumulator over the worker's whole decode history.",
    technique="explicit enumeration of record sequences and file histories against a reference model with defect-model attribution", ref="3 C18"),
  "C02": dict(level="exploration",
-   text="Bounded exhaustive enumeration on the real decoder: every observable (message, field) entry x every definition of a stated compat set x both byte orders x a boundary payload alphabet x record contexts, compared with an independent value denotation model (zero/sign extension, arrays, strings, times, coordinates) and the all-invalid rule for absent fields; record independence on the corpus; every device file of the corpus against the complete reference decoder. Shared 'mix' family: all words up to length 3 (quick) / 4 (thorough) over 12 definition shapes x 2 local types x normal/compressed data records (both byte orders, timestamp first/middle/absent, zero-field and developer-field definitions, unknown messages and fields, signed/array/local-time fields, unhosted message, second file_id), each decoded and compared message by message and field by field with a complete reference decoder (parser + value model + timestamp machine + router).",
+   text="Bounded exhaustive enumeration on the real decoder: every observable (message, field) entry x every definition of a stated compat set x both byte orders x a boundary payload alphabet x record contexts, compared with an independent value denotation model (zero/sign extension, arrays, strings, times, coordinates) and the all-invalid rule for absent fields; record independence on the corpus; every device file of the corpus against the complete reference decoder; developer fields in every number 1..255; coordinates transmitted as sint16/sint8. Shared 'mix' family: all words up to length 3 (quick) / 4 (thorough) over 12 definition shapes x 2 local types x normal/compressed data records (both byte orders, timestamp first/middle/absent, zero-field and developer-field definitions, unknown messages and fields, signed/array/local-time fields, unhosted message, second file_id), each decoded and compared message by message and field by field with a complete reference decoder (parser + value model + timestamp machine + router).",
    note="Model = harness/props/model.go (written from the FIT base-type rules). Value alphabets are boundary sets, not all 2^32 payloads. Messages that no file container exposes are not observable and not covered.",
    technique="bounded exhaustive input enumeration against a reference value model", ref="3 C02"),
  "C04": dict(level="fault_enumeration",
-   text="Exhaustive fault enumeration: every burst of <=16 bits at every bit position of each base file (2^15 patterns per position) must be rejected by both Decode and CheckIntegrity; all 65536 stored header CRC values x header variants must get the same verdict from all header-checking APIs as the reference CRC gives; verdicts on valid and corrupted files must not depend on the reader's chunking (8 chunkings); Encode outputs above 64 and 128 KiB.",
+   text="Exhaustive fault enumeration: every burst of <=16 bits at every bit position of each base file (2^15 patterns per position) must be rejected by both Decode and CheckIntegrity; all 65536 stored header CRC values x header variants must get the same verdict from all header-checking APIs as the reference CRC gives; verdicts on valid and corrupted files must not depend on the reader's chunking (8 chunkings); Encode outputs above 64 and 128 KiB; records larger than the read buffer.",
    note="Base files are small (25-50 bytes) so that the burst space is complete; longer files in the thorough tier. Reference = bitwise CRC-16/ARC.",
    technique="exhaustive fault (bit-burst) enumeration + exhaustive header CRC value enumeration across APIs", ref="3 C04"),
  "C10": dict(level="model_checking",
-   text="Stateless exploration of the reader environment: the harness owns the io.Reader and enumerates its answers at every Read with deviation bounding (bound 2 from two default behaviours), plus complete cut-set enumeration of the minimal file and uniform chunkings across the internal buffer size; every schedule must consume exactly the frame and give the schedule-independent result; chained decoding equals per-member decoding; every ordered pair (and triple of short words) of mix-family files through DecodeChained against the reference decoder per member; 15 reader kinds (bytes.Reader, bytes.Buffer, bufio, os.File, io.Pipe, iotest shapes ...) with exact consumption where the reader can tell; every way of writing a file_id record through DecodeHeaderAndFileID vs Decode vs DecodeChained.",
+   text="Stateless exploration of the reader environment: the harness owns the io.Reader and enumerates its answers at every Read with deviation bounding (bound 2 from two default behaviours), plus complete cut-set enumeration of the minimal file and uniform chunkings across the internal buffer size; every schedule must consume exactly the frame and give the schedule-independent result; chained decoding equals per-member decoding; every ordered pair (and triple of short words) of mix-family files through DecodeChained against the reference decoder per member; 15 reader kinds (bytes.Reader, bytes.Buffer, bufio, os.File, io.Pipe, iotest shapes ...) with exact consumption where the reader can tell; every way of writing a file_id record through DecodeHeaderAndFileID vs Decode vs DecodeChained; readers that answer (0, nil) hundreds of times.",
    note="Menu of reader answers is finite (full/1/half/len-1/empty<=2/data+EOF). Bound 2 completed; all 2^24 cut sets in the thorough tier.",
    technique="deviation-bounded exhaustive exploration of environment (Read-answer) schedules on the real decoder", ref="3 C10"),
  "C11": dict(level="fault_enumeration",
@@ -76,11 +76,11 @@ CHECKS = {
    note="Assumes: readers that never make progress are out of scope; arbitrary unstructured garbage is not enumerated. Panics are caught with recover, hangs with a 30 s watchdog.",
    technique="bounded exhaustive input enumeration on the real decoder (definition / header / record-header / cut spaces)", ref="3 C01"),
  "C15": dict(level="exploration",
-   text="Exhaustive enumeration of every (message, field) entry of the compiled-in profile, every struct field and every container member and every message File itself holds, statically (reflection against the exported tables) and dynamically (one-field stream decoded, located, re-encoded).",
+   text="Exhaustive enumeration of every (message, field) entry of the compiled-in profile, every struct field and every container member and every message File itself holds, and the header timestamp over every ordered pair of known messages on one local type, statically (reflection against the exported tables) and dynamically (one-field stream decoded, located, re-encoded).",
    note="Trusted: verif-tagged read-only exports mirror the tables; reference mapping base type -> Go kind / invalid value is written from the FIT base-type table.",
    technique="exhaustive configuration enumeration of the profile tables with reflection + decode/encode confirmation", ref="3 C15"),
  "C14": dict(level="model_checking",
-   text="Complete explicit-state exploration of the checksum's transition system on the real code: all 65536 register states x 256 bytes against a bitwise CRC-16/ARC, plus Reset/residue from every state, all write partitions of short and long strings, io.Copy schedules, first-use histories (each entry point as the first call a fresh process makes into the package, and ordered pairs of them) every start alignment 0..16 of the data inside a larger buffer, data followed by its own checksum and zero padding, and histories that go through package fit first. The state space is finite and fully enumerated, so within the stated reference this is a complete decision.",
+   text="Complete explicit-state exploration of the checksum's transition system on the real code: all 65536 register states x 256 bytes against a bitwise CRC-16/ARC, plus Reset/residue from every state, all write partitions of short and long strings, io.Copy schedules, first-use histories (each entry point as the first call a fresh process makes into the package, and ordered pairs of them) every start alignment 0..16 of the data inside a larger buffer, data followed by its own checksum and zero padding, Sum/Size/BlockSize as observers in every state, and histories that go through package fit first. The state space is finite and fully enumerated, so within the stated reference this is a complete decision.",
    note="Trusted: the 10-line bitwise reference CRC; Go runtime. States are reached through the public New().Write only.",
    technique="explicit-state enumeration of all (state,byte) transitions against a reference model", ref="3 C14"),
  "C17": dict(level="exploration",
